@@ -14,6 +14,12 @@ Non-trivial case rules (what goes into run.nontrivial):
        without its timestamp line).
   C06: a pair of different texts of one MM with >= 2 atoms and >= 1 bond (key = digest of both texts).
 
+Trap spellings (module flag TRAPS, knobs `header_trap` of render3000 and `text_trap` of render2000): legal
+free text that looks like format syntax -- a header line "M  V30 ...-", and an alias / group / stext text
+line that reads "M  CHG ..", "M  ISO ..", "M  RAD .." or "M  END".  They are kept out of the random knob
+combinations and run as a handful of dedicated cases whose hits carry the stable keys
+"C07:header_trap", "C06:header_trap", "C08:text_trap", "C06:text_trap".
+
 Things deliberately *not* generated for the conformant streams (see report): control characters
 that str.splitlines() treats as line breaks inside header text, float spellings `inf`/`nan`/`1_0`
 (outside the model's float recogniser), negative counts.
